@@ -334,6 +334,17 @@ func (o *opCtx) exec(kind, k int) string {
 			one := fr.One()
 			ys[rng.Intn(n)].Add(ys[0], &one)
 		}
+		// the verifier gets the commitments in representations of its own (the prover normalised these objects in place):
+		// verification must leave them bitwise as they are
+		for i := range Cs {
+			already := false
+			for j := 0; j < i; j++ {
+				already = already || Cs[j] == Cs[i]
+			}
+			if !already {
+				*Cs[i] = Rerepresent(Cs[i], rng.Intn(NumRepKinds), rng)
+			}
+		}
 		snapC := make([]banderwagon.Element, n)
 		for i := range Cs {
 			snapC[i] = *Cs[i]
